@@ -6,7 +6,7 @@
                           invariant with nobody running
      inv_pop              popping the minimum entry: its callbacks become the pending list
      inv_do_interruption  Interruption._interrupt
-     inv_run_callbacks    the callback loop, when it is not cut short ([loop_clean])
+     inv_run_callbacks    the callback loop, when it is not cut short by an escaping exception ([loop_clean])
      good_step            [good] is preserved by every clean step
      reach / reach_good   states reachable from init_state by module-level code, run() preludes and clean steps *)
 From Coq Require Import ZArith QArith List Bool Lia Lqa.
@@ -565,15 +565,15 @@ Qed.
 (* ------------------------------------------------------------------------------------------------ *)
 (* the callback loop *)
 
-(* the loop is not cut short while process resumptions are still waiting in it: every callback returns normally,
-   or the loop is left by StopSimulation with no _resume behind it *)
+(* the loop is not cut short: every callback returns normally -- except that the stop callback of run(until=...)
+   may raise StopSimulation / the failure of the until-event, which the (repaired) kernel defers to the end of the
+   loop.  Any other exception, out-of-fuel or RBroken ends the loop and loses the remaining callbacks. *)
 Fixpoint loop_clean (fuel : nat) (codes : list prog) (e : evid) (l : list cb) (s : state) : Prop :=
   match l with
   | [] => True
   | c :: t => match run_cb fuel codes e c s with
               | (s1, ROk) => loop_clean fuel codes e t s1
-              | (_, RStop _) => forall p, ~ In (CbResume p) t
-              | _ => False
+              | (s1, r) => if is_stop_cb c && is_exit r then loop_clean fuel codes e t s1 else False
               end
   end.
 
@@ -597,24 +597,22 @@ Proof.
       cbn [run_cb] in *. unfold resume_proc in *.
       assert (I1 : inv (Some p) pe t (set_active (Some p) s)).
       { apply inv_set_active. destruct I as (HS & HC & HA). split; [exact HS|]. split; [apply invC_start, HC|exact HA]. }
-      pose proof (resume_loop_not_stop codes fuel p pe (set_active (Some p) s)) as NS.
       destruct (resume_loop fuel codes p pe (set_active (Some p) s)) as [s1 r] eqn:RL.
-      destruct r; try contradiction.
-      * apply IH; [exact NI'| |exact LC]. eapply inv_resume_loop; [exact I1|exact RL|reflexivity].
-      * exfalso. exact (NS v eq_refl).
+      destruct r; cbn [is_stop_cb andb] in LC; try contradiction.
+      apply IH; [exact NI'| |exact LC]. eapply inv_resume_loop; [exact I1|exact RL|reflexivity].
     + cbn [run_cb] in *. apply IH; [exact NI'| |exact LC]. apply inv_cond_check. eapply inv_drop; [|exact I]. discriminate.
     + cbn [run_cb] in *. pose proof (inv_cond_build None pe t c0 s) as CB.
       destruct (cond_build c0 s) as [s1 r]. cbn [fst] in CB.
       assert (I1 : inv None pe t s1) by (apply CB; eapply inv_drop; [|exact I]; discriminate).
-      destruct r; try contradiction.
-      * apply IH; [exact NI'|exact I1|exact LC].
-      * cbn [fst]. eapply inv_drop_all; eassumption.
+      destruct r; cbn [is_stop_cb andb] in LC; try contradiction.
+      apply IH; [exact NI'|exact I1|exact LC].
     + exfalso. apply (NI i). left. reflexivity.
     + cbn [run_cb] in *. pose proof (stop_cb_state pe s) as ST. destruct (stop_cb pe s) as [s1 r]. cbn [fst] in ST. subst s1.
       assert (I1 : inv None pe t s) by (eapply inv_drop; [|exact I]; discriminate).
-      destruct r; try contradiction.
-      * apply IH; [exact NI'|exact I1|exact LC].
-      * cbn [fst]. eapply inv_drop_all; eassumption.
+      destruct r; cbn [is_stop_cb is_exit andb] in *; try contradiction;
+        try (apply IH; [exact NI'|exact I1|exact LC]);
+        (pose proof (IH s NI' I1 LC) as FIN; destruct (run_callbacks fuel codes pe t s) as [s2 r2]; cbn [fst] in FIN;
+         destruct r2; exact FIN).
     + cbn [run_cb] in *. apply IH; [exact NI'| |exact LC].
       eapply inv_frame; [| | | | |eapply inv_drop; [|exact I]; discriminate]; reflexivity.
 Qed.
@@ -681,13 +679,11 @@ Proof.
     assert (Hi1 : get_event e s1 = Some (ev_set_cbs None ev)).
     { unfold s1. rewrite get_event_upd, Nat.eqb_refl. change (get_event e (pop_state m rest s)) with (get_event e s).
       rewrite Hev. reflexivity. }
-    pose proof (do_interruption_not_stop fuel codes e s1) as NS.
     destruct (do_interruption fuel codes e s1) as [s2 r2] eqn:DI.
-    destruct r2; try contradiction.
-    - apply inv_run_callbacks; [exact NI| |exact SC].
-      eapply inv_do_interruption; [exact Hi1|exact K|exact ID| |exact DI|reflexivity].
-      eapply inv_drop; [|exact I1]. discriminate.
-    - exfalso. exact (NS v eq_refl). }
+    destruct r2; cbn [is_stop_cb andb] in SC; try contradiction.
+    apply inv_run_callbacks; [exact NI| |exact SC].
+    eapply inv_do_interruption; [exact Hi1|exact K|exact ID| |exact DI|reflexivity].
+    eapply inv_drop; [|exact I1]. discriminate. }
   destruct (run_callbacks fuel codes e l s1) as [s2 r2]. cbn [fst] in FIN. destruct r2; exact FIN.
 Qed.
 
